@@ -145,7 +145,7 @@ var plans = map[string]Plan{
 		Pkg:        "c02",
 		Level:      "translation_validation",
 		Runs: []Run{
-			{Test: "^TestProps$/^whole_machine$", Checks: checks(150, 4000), Shards: shards(6, 16)},
+			{Test: "^TestProps$/^whole_machine$", Checks: checks(250, 4000), Shards: shards(6, 16)},
 		},
 		Assumptions: []string{
 			"the files written by Bondmachine.Write_verilog (iverilog flavour, empty simbox, no board modules) are executed by /verif's 2-state interpreter with power-up zero",
